@@ -12,7 +12,7 @@ CLAIMED = {
                 "free dart) preserves the well-formedness predicate WF 3 under the property's argument guard, lifted to every finite "
                 "history by induction; the hand-written model is tied to /repo on every run by an exhaustive small-scope + random "
                 "differential run of the real CMap2 against the compiled model, and the WF predicate is also evaluated on the real map. Props/C01b.lean: whatever the outcome of a transactional call (success, refusal, attribute failure) the state it leaves INSIDE the transaction is well formed, so a user transaction that swallows the refusal and commits publishes a well-formed map (C01_any_outcome_preserves_WF, C01_swallowed_abort_preserves_WF; stream `txi`).",
-        "note": "Trusted: Lean kernel + {propext, Classical.choice, Quot.sound}; the model is hand-written (tie = differential run, "
+        "note": "The six *_core functions of components/betas.rs are RE-TRANSLATED from the source on every run (Gen/LinkCores.lean) and proved equal as programs to the link cores of the model (Props/C01Gen.lean); the rest of the model is hand-written. Trusted: Lean kernel + {propext, Classical.choice, Quot.sound}; the model is hand-written (tie = differential run, "
                 "exhaustive for n<=3 darts quick / n<=4 thorough); fast-stm modelled sequentially here (concurrency is C07).",
         "design_ref": "DESIGN.md §7 C01",
     },
@@ -59,7 +59,7 @@ CLAIMED = {
                 "numbers of darts ahead or behind) is refused with an error (C02_refusal, C02_refusal_sew) and a refused or failed call "
                 "changes nothing; removed darts are nobody's image. Tie: exhaustive WF 3-maps n<=3, glued-faces family, random and "
                 "polyhedra histories, composed transactions on the real CMap3 vs the model; WF and Mirror evaluated on the real map. Props/C02b.lean: the two extra shape predicates used by the 3-D face clauses of C03/C20 — Sided (a face is 3-linked as a whole) and NoSelfGlue — are NOT invariants under C02's guards alone (decide-checked counterexample histories) and ARE preserved under the additional guard 'a 1-link joins two darts that are both 3-linked or both 3-free' (C02b_history_preserves_all).",
-        "note": "Trusted: Lean kernel + 3 standard axioms; hand-written model (Model/Ops3.lean). Defect D1/D1b (three_link accepted "
+        "note": "The six *_core functions of components/betas.rs are RE-TRANSLATED from the source on every run (Gen/LinkCores.lean) and proved equal as programs to the link cores of the model (Props/C01Gen.lean); the rest of the model is hand-written. Trusted: Lean kernel + 3 standard axioms; hand-written model (Model/Ops3.lean). Defect D1/D1b (three_link accepted "
                 "non-mirrorable faces) found and repaired (243b216).",
         "design_ref": "DESIGN.md §7 C02, §13",
     },
